@@ -54,6 +54,13 @@ def simple_args(name, v):
     if name == 'test_fs': return ['-E', 'test_fs' if v % 2 else '^test_fs'], None, None
     raise KeyError(name)
 
+def has_large_regular_inode(img):
+    """any in-use regular inode (reserved ones included: the resize inode is one) whose size needs the large_file feature"""
+    try:
+        ck = e4ref.Checker(img); ck.run()
+        return any(I.fmt == 0o100000 and I.size > 0x7fffffff for I in ck.inuse.values())
+    except Exception: return False
+
 def body(case, env):
     fp = core.stable_hash(case); classes = ['cfg:' + case['cfg']]
     cfg = fsgen.config_by_name(case['cfg']); bs = cfg['bs']; d = env['dir']
@@ -114,6 +121,8 @@ def body(case, env):
             if name in tool.COMPAT or name in tool.INCOMPAT or name in tool.ROCOMPAT:
                 if o[2] and name not in f1 and not (name == 'uninit_bg' and 'metadata_csum' in f1): bad.append('feature %s not set' % name)
                 if not o[2] and name in f1 and not (name == '64bit' and 'resize2fs -s' in p.out): bad.append('feature %s still set' % name)   # ^64bit only prints how to do it
+                # ^large_file on a filesystem that holds a regular inode >= 2 GiB (a big file, or the resize inode on 4k-block filesystems): tune2fs clears the flag and asks for e2fsck -f, which rightly sets it again
+                if not o[2] and name == 'large_file' and asked and has_large_regular_inode(img): bad = [b for b in bad if 'large_file' not in b]; classes.append('large_file-restored-by-requested-fsck')
                 if o[2] and name == '64bit' and 'resize2fs -b' in p.out: bad = [b for b in bad if '64bit' not in b]
             if o[1] in HEAVY and (name in f0) != (name in f1): heavy += 1
         elif kind == 'uuid':
